@@ -267,10 +267,47 @@ def r6(ctx):
     c06.r6(ctx, P, "C05.R6")
 
 
-RULES = [r1, r2, r3, r4, r5, r6]
+def r7(ctx):
+    """MerkleTree::truncate (replay of a logged upgrade on reopen) rebuilds the root list position by
+    position: the root for position i is pushed only where `roots.len() <= i` is established, i.e.
+    every stale root from the first differing position on has been dropped"""
+    rule = "C05.R7"
+    from .c09 import known_relations, term_sig_
+    fa = ctx.fn(MT_TRUNCATE)
+    if not need(ctx, P, rule, MT_TRUNCATE, fa):
+        return
+    pushes = [s for s, t in fa.calls() if (t.get("callee") or "").endswith("Vec::<T, A>::push") and term_sig_(fa.arg_origin(s, 0)).endswith(".roots")]
+    if not need(ctx, P, rule, "truncate: changeset.roots.push(node)", pushes):
+        return
+    s = pushes[0]
+    base = term_sig_(fa.arg_origin(s, 0))
+    ok = False
+    seen = []
+    for op, a, b in known_relations(ctx, fa, s):
+        if a is None or b is None or not isinstance(op, str):
+            continue
+        sa, sb = term_sig_(a), term_sig_(b)
+        seen.append("%s(%s, %s)" % (op, sa[:40], sb[:40]))
+        if op in ("Le", "Eq", "Lt") and sa == "len(%s)" % base and "enumerate" in sb:
+            ok = True
+    ctx.check(P, rule, "the replacement root is pushed at its own position", ok, "push dominated by the exit of `while roots.len() > i { roots.pop() }`",
+              "MerkleTree::truncate pushes the root for position i where `roots.len() <= i` is not established (facts: %s): stale roots after the first differing position survive, so the root set after replay — and every later root hash and signature — is not the prescribed one" % seen[:4],
+              [site_desc(fa, s)], key="C05|C05.R7|truncate|push position")
+    node = fa.arg_origin(s, 1)
+    ctx.check(P, rule, "the replacement root is the stored node of that full root", term_has_call(node, MT_REQUIRED_NODE) is not None and "full_roots" in term_str(node) or "enumerate" in term_str(node), "required_node(full_roots[i])",
+              "pushed root is %s" % term_str(node)[:100])
+    # final trim and totals
+    ws = {p: fa.origin_rvalue(fa.blocks[b].stmts[si]["rv"], b, si) for b, si, p in assign_sites_prefix(fa, "~MerkleTreeChangeset")}
+    good = strip(ws.get("~MerkleTreeChangeset.length", ("x",))) == ("param", "length") and strip(ws.get("~MerkleTreeChangeset.ancestors", ("x",))) == ("param", "length") and strip(ws.get("~MerkleTreeChangeset.fork", ("x",))) == ("param", "fork") and term_is_lit(ws.get("~MerkleTreeChangeset.upgraded", ("x",)), 1)
+    ctx.check(P, rule, "the rebuilt changeset carries the logged length and fork and is an upgrade", good, "length = ancestors = length param, fork = fork param, upgraded = true", "truncate sets %s" % {k: term_str(v)[:40] for k, v in ws.items()})
+    bl = ws.get("~MerkleTreeChangeset.byte_length")
+    ctx.check(P, rule, "byte length is the sum of the rebuilt roots' sizes", bl is not None and "fold" in term_str(bl) and "roots" in term_str(bl), "roots.iter().fold(0, acc + node.length)", "byte_length is %s" % (term_str(bl)[:80] if bl else None))
+
+
+RULES = [r1, r2, r3, r4, r5, r6, r7]
 EXPLANATION = ("C05 (tree, root hash and signature match the v10 scheme): decides the hash pre-image layouts from the ordered Digest::update calls and the immediately-called encoding closures — "
                "leaf [0][u64le len][data], parent [1][u64le sum][lower-index child hash][other hash], tree [2] then per root [hash][u64le index][u64le length] (R1); the type bytes and the 32-byte tree "
                "namespace (R2); signable = [TREE][hash:32][u64le length][u64le fork] (R3); big-endian helper confined to unused legacy functions and every node producer hashing through Hash::data / "
-               "Hash::parent with index / size operands of the scheme (R4); sign/verify symmetry and the header / entry copies of hash, signature, length (R5); the 40-byte tree record (R6).")
+               "Hash::parent with index / size operands of the scheme (R4); sign/verify symmetry and the header / entry copies of hash, signature, length (R5); the 40-byte tree record (R6); the position-by-position rebuild of the root list when a logged upgrade is replayed (R7).")
 NOT_DECIDED = "the numeric value of any hash or signature; append_root's choice of which roots to merge (flat-tree arithmetic); flat in-order numbering itself (flat_tree dependency)."
 ASSUMPTIONS = ["blake2 and ed25519-dalek implement BLAKE2b-256 and Ed25519", "reference layout table = Hypercore v10 scheme as named in the property"]
